@@ -1636,6 +1636,18 @@ func (s *Store) Request(ctx context.Context, eqr *proto.ExecuteQueryRequest) ([]
 	nRW, nRO := s.RORWCount(eqr)
 	isLeader := s.raft.State() == raft.Leader
 
+	// Resolve AUTO exactly as Query() does: WEAK on voters, NONE on non-voters.
+	if eqr.Level == proto.ConsistencyLevel_AUTO {
+		eqr.Level = proto.ConsistencyLevel_WEAK
+		isVoter, err := s.IsVoter()
+		if err != nil {
+			return nil, 0, 0, err
+		}
+		if !isVoter {
+			eqr.Level = proto.ConsistencyLevel_NONE
+		}
+	}
+
 	// See the Query() code for a full explanation of this.
 	readTerm := s.raft.CurrentTerm()
 	if eqr.Level == proto.ConsistencyLevel_LINEARIZABLE {
